@@ -29,6 +29,9 @@ type BankModel struct {
 
 const bankBound = uint64(1) << 40
 
+// the two modelled denominations, in sorted order (index 0 sorts first)
+var bankDenoms = [2]string{"aaa", "umed"}
+
 type coinsVal struct {
 	Amt [2]*smt.Term
 }
@@ -87,6 +90,35 @@ func init() {
 	stubs["(github.com/cosmos/cosmos-sdk/types.Coins).Empty"] = func(e *Exec, fn *ssa.Function, args []Value) Value {
 		c := args[0].(Opaque).Data.(*coinsVal)
 		return smt.And(smt.Eq(c.Amt[0], c0), smt.Eq(c.Amt[1], c0))
+	}
+	stubs["(github.com/cosmos/cosmos-sdk/types.Coins).AmountOf"] = func(e *Exec, fn *ssa.Function, args []Value) Value {
+		c := args[0].(Opaque).Data.(*coinsVal)
+		d := strView(args[1].(Str))
+		is0 := e.viewEq(d, strView(constStr(bankDenoms[0])))
+		is1 := e.viewEq(d, strView(constStr(bankDenoms[1])))
+		return Opaque{Kind: "sdkint", Data: smt.Ite(is0, c.Amt[0], smt.Ite(is1, c.Amt[1], c0))}
+	}
+	stubs["(github.com/cosmos/cosmos-sdk/types.Coins).IsZero"] = stubs["(github.com/cosmos/cosmos-sdk/types.Coins).Empty"]
+	stubs["(github.com/cosmos/cosmos-sdk/types.Coins).Len"] = func(e *Exec, fn *ssa.Function, args []Value) Value {
+		c := args[0].(Opaque).Data.(*coinsVal)
+		one := func(t *smt.Term) *smt.Term { return smt.Ite(smt.Eq(t, c0), c0, c1) }
+		return smt.Add(one(c.Amt[0]), one(c.Amt[1]))
+	}
+	for _, m := range []string{"IsZero", "IsPositive", "IsNegative"} {
+		m := m
+		stubs["(cosmossdk.io/math.Int)."+m] = func(e *Exec, fn *ssa.Function, args []Value) Value {
+			t, ok := args[0].(Opaque).Data.(*smt.Term)
+			if !ok {
+				panic(engineErr("math.Int.%s on an unmodelled value", m))
+			}
+			switch m {
+			case "IsZero":
+				return smt.Eq(t, c0)
+			case "IsPositive":
+				return smt.Ne(t, c0)
+			}
+			return smt.False
+		}
 	}
 	stubs["(github.com/cosmos/cosmos-sdk/types.Coins).String"] = func(e *Exec, fn *ssa.Function, args []Value) Value {
 		return e.opaqueString("coins")
